@@ -400,7 +400,7 @@ def convert_resizenn_ac_to_depthwise_conv(op, upscale_factor):
         weight_quant.quant_min = -(1 << (ofm_dtype.bits - 1))
         weight_quant.quant_max = (1 << (ofm_dtype.bits - 1)) - 1
 
-    weight_shape = [upscale_factor, upscale_factor, output_depth, output_depth]  # HWIO
+    weight_shape = [upscale_factor, upscale_factor, 1, output_depth]  # HWIO
 
     # the single non-zero coefficient used to select the desired value needs to be placed in the 'centre value', which
     # is calculated by finding the 'centre position' ('*' in the diagram below) and then choosing the 'value' that is
@@ -413,6 +413,8 @@ def convert_resizenn_ac_to_depthwise_conv(op, upscale_factor):
     weight_values = [0] * (upscale_factor * upscale_factor)
     centre_coeff = (upscale_factor // 2) * upscale_factor + (upscale_factor // 2)
     weight_values[centre_coeff] = 1
+    # every channel uses the same kernel
+    weight_values = np.repeat(weight_values, output_depth)
 
     # add weight tensor, this will discard the size tensor of the resize op
     op.set_input_tensor(
